@@ -14,13 +14,15 @@ def load_schema(xml):
 
 
 def models_for(ctx, n_random, systematic=True, handlers=False,
-               handler_density=None):
+               handler_density=None, augment=None):
     """Yield (index, origin, model) for this shard."""
     idx = 0
     if systematic:
         for m in family.systematic_models():
             idx += 1
             if ctx.mine(idx):
+                if augment:
+                    augment(m)
                 yield idx, "systematic", m
     rng = ctx.rng("models")
     for i in range(n_random):
@@ -32,6 +34,8 @@ def models_for(ctx, n_random, systematic=True, handlers=False,
         m = family.random_model(mrng, handlers=handlers)
         if handler_density is not None:
             family.add_handlers(mrng, m, handler_density)
+        if augment:
+            augment(m)
         yield idx, "random", m
 
 
@@ -71,11 +75,12 @@ class Pair:
 
 def pairs(ctx, n_random_models, texts_per_model, systematic=True,
           handlers=False, handler_density=None, p_bad_value=0.04,
-          fault_plan=None):
+          fault_plan=None, augment=None):
     """Yield Pair objects; schema-load failures are counted (generator or
     C10 problem) and skipped."""
     for idx, origin, model in models_for(ctx, n_random_models, systematic,
-                                         handlers, handler_density):
+                                         handlers, handler_density,
+                                         augment):
         xml = family.render_xml(model)
         try:
             schema = load_schema(xml)
